@@ -23,6 +23,7 @@ var wireExpected = []string{
 	"EncodeZigZag", "DecodeZigZag",
 	"EncodeBool", "DecodeBool",
 	"ParseError", "Number_IsValid",
+	"consumeFieldValueD", "ConsumeFieldValue", "ConsumeField", "ConsumeGroup",
 }
 
 // extractWire generates Gen/WireGo.v from encoding/protowire/wire.go.
